@@ -760,6 +760,12 @@ pub fn run_c19(ctx: &mut Ctx) {
                     "kz_a/Foo.rs",
                 ),
                 (
+                    "module-added-under-the-empty-path",
+                    vec![("kz_m", "pub type Foo { pub x: u32, }\npub type Bar { pub f: Foo, }")],
+                    vec![("", "pub type Foo { pub y: u64, }")],
+                    "kz_m.rs",
+                ),
+                (
                     "type-at-the-path-of-an-imported-module",
                     vec![("kz_b::Inner", "pub type Item { pub y: u64, }"), ("kz_c", "use kz_b::Inner;\npub type Holder { pub i: *const Item, }")],
                     vec![("kz_b", "pub type Inner { pub x: u32, }\npub type Item { pub z: u16, }")],
@@ -769,9 +775,9 @@ pub fn run_c19(ctx: &mut Ctx) {
             for (name, base_mods, added, file) in pairs {
                 for ptrw in [4usize, 8] {
                     let parse = |t: &str| pyxis::parser::parse_str(t).expect("C19 pair parses");
-                    let s0: Mods = base_mods.iter().map(|(p, t)| (ItemPath::from(*p), parse(t))).collect();
+                    let s0: Mods = base_mods.iter().map(|(p, t)| (if p.is_empty() { ItemPath::empty() } else { ItemPath::from(*p) }, parse(t))).collect();
                     let mut s1 = s0.clone();
-                    s1.extend(added.iter().map(|(p, t)| (ItemPath::from(*p), parse(t))));
+                    s1.extend(added.iter().map(|(p, t)| (if p.is_empty() { ItemPath::empty() } else { ItemPath::from(*p) }, parse(t))));
                     ctx.eval();
                     let Ok(base) = build_files(&s0, ptrw) else {
                         ctx.inconclusive(format!("the base input of the pair {name} was rejected"));
